@@ -6,6 +6,8 @@ import EaselModel.Msafile.A2m
 import EaselModel.Msafile.Clustal
 import EaselModel.Msafile.Psiblast
 import EaselModel.Msafile.Phylip
+import EaselModel.Msafile.Selex
+import EaselModel.Msafile.Stockholm
 import EaselModel.Msafile.Dump
 /-! Line-protocol driver for the C01 model: `parse fmt=… abc=… src=… ps=… hex=…` (source and page size are irrelevant
     to the model: it sits on the abstract line reader).  Formats / modes without a model answer `unmodelled`. -/
@@ -41,6 +43,10 @@ def parseOp (ws : List String) : String :=
       "open=ok fmt=phylip abc=" ++ abcName abc ++ readAll (phylipRead false (phylipCfg abc)) 64 lines
     else if fmt == "phylips" then
       "open=ok fmt=phylips abc=" ++ abcName abc ++ readAll (phylipRead true (phylipCfg abc)) 64 lines
+    else if fmt == "selex" then
+      "open=ok fmt=selex abc=" ++ abcName abc ++ readAll (selexRead (selexCfg abc)) 64 lines
+    else if fmt == "stockholm" || fmt == "pfam" then
+      "open=ok fmt=" ++ fmt ++ " abc=" ++ abcName abc ++ readAll (stockholmRead (stockholmCfg abc)) 64 lines
     else "unmodelled"
   | _, _, _ => "unmodelled"
 
